@@ -195,6 +195,10 @@ func (w *World) VerifyFunc(fs *FuncSpec) {
 			switch e := r.(type) {
 			case vcErr:
 				w.errorf("%s.%s: %s", fs.Pkg, fs.Name, e.msg)
+				if w.FuncErrors == nil {
+					w.FuncErrors = map[string]string{}
+				}
+				w.FuncErrors[fs.Pkg+"."+fs.Name] = e.msg
 			case specErr:
 				w.errorf("%s.%s: contract error: %s", fs.Pkg, fs.Name, e.msg)
 			default:
